@@ -216,6 +216,8 @@ fn search_low(s: &Search) -> Option<String> {
             }
         }
         Search::Not(x) => format!("NOT {}", search_low(x)?),
+        // `NOT *`: the negation of "every line" (repo commit 0ef6700)
+        Search::And(v) if v.is_empty() => "*".to_string(),
         Search::And(v) | Search::Or(v) if v.len() >= 2 => {
             let mut parts = vec![];
             for x in v {
@@ -759,10 +761,18 @@ pub fn coverage_gap(orig: &str, canon: &str) -> Option<String> {
 /// `optional`: tokens the original may contain in addition (once each): the explicit output column
 /// of `split(x) … as x`, which equals the default
 pub fn coverage_gap_with(orig: &str, canon: &str, optional: &[String]) -> Option<String> {
-    let (to, po) = lex(orig);
-    let (tc, pc) = lex(canon);
+    let (mut to, po) = lex(orig);
+    let (mut tc, pc) = lex(canon);
     if po != pc {
         return Some(format!("the text has {} stage separators, the accepted query has {}", po, pc));
+    }
+    // `x OR *` IS `*` (every line): an OR chain with a `*`-only / empty operand absorbs its other
+    // operands by meaning, not by oversight (repo commit 0ef6700; the filter semantics is C02's
+    // business).  For such a filter only the operator part of the text is compared.
+    let (fo, ro) = split_filter(orig);
+    if or_absorbs(fo) {
+        to = lex(ro).0;
+        tc = lex(split_filter(canon).1).0;
     }
     let mut opt: Vec<String> = optional.to_vec();
     opt.sort();
@@ -778,6 +788,77 @@ pub fn coverage_gap_with(orig: &str, canon: &str, optional: &[String]) -> Option
         return Some(format!("tokens of the accepted query that the text does not contain: {:?}", extra_c));
     }
     None
+}
+
+/// (filter text, rest from the first `|` outside a quoted string)
+pub fn split_filter(text: &str) -> (&str, &str) {
+    let mut quote: Option<char> = None;
+    let mut esc = false;
+    for (i, c) in text.char_indices() {
+        match quote {
+            Some(q) => {
+                if esc {
+                    esc = false;
+                } else if c == '\\' {
+                    esc = true;
+                } else if c == q {
+                    quote = None;
+                }
+            }
+            None => {
+                if c == '"' || c == '\'' {
+                    quote = Some(c);
+                } else if c == '|' {
+                    return (&text[..i], &text[i..]);
+                }
+            }
+        }
+    }
+    (text, "")
+}
+
+/// does the filter contain an `OR` and an operand that stands for every line (`*`, `**`, `""`, `''`)?
+fn or_absorbs(filter: &str) -> bool {
+    let mut words: Vec<String> = vec![];
+    let mut cur = String::new();
+    let mut quote: Option<char> = None;
+    let mut esc = false;
+    for c in filter.chars() {
+        match quote {
+            Some(q) => {
+                cur.push(c);
+                if esc {
+                    esc = false;
+                } else if c == '\\' {
+                    esc = true;
+                } else if c == q {
+                    quote = None;
+                    // a quoted keyword ends with its closing quote
+                    words.push(std::mem::take(&mut cur));
+                }
+            }
+            None => {
+                if c.is_whitespace() || c == '(' || c == ')' {
+                    if !cur.is_empty() {
+                        words.push(std::mem::take(&mut cur));
+                    }
+                } else {
+                    if c == '"' || c == '\'' {
+                        // … and starts a new operand even when glued to a bare keyword (`*"a"`)
+                        if !cur.is_empty() {
+                            words.push(std::mem::take(&mut cur));
+                        }
+                        quote = Some(c);
+                    }
+                    cur.push(c);
+                }
+            }
+        }
+    }
+    if !cur.is_empty() {
+        words.push(cur);
+    }
+    words.iter().any(|w| w == "OR") && words.iter().any(|w| w.chars().all(|c| c == '*') || w == "\"\"" || w == "''")
 }
 
 /* ---------- probe ---------- */
@@ -1063,6 +1144,22 @@ pub fn run_binary(args: &[&str], stdin_path: Option<&str>) -> Option<SubRun> {
 }
 
 /// witnesses of defects beyond the parser (type check / operator construction)
+/// regression cases of the fixed finding C04/keyword-without-word-boundary (repo commit 0324001):
+/// the glued spellings must be rejected (or keep the whole word as a field name) — a recurrence is
+/// reported by the coverage oracle as an ordinary violation of that class
+pub const GLUED_WITNESSES: &[(&str, bool)] = &[
+    ("* | json | countby x", false),
+    ("* | parse \"*\" asx", false),
+    ("* | json | sort by x descx", false),
+    ("* | json | where a andb", false),
+    ("* | json | fields onlyx", true),
+    ("* | json | fields dropx", true),
+    ("* | json | fields exceptional", true),
+    ("* | json | max_latency as y", true),
+    ("* | json | counter as y", true),
+    ("* | json | where trueish", true),
+];
+
 pub const COMPILE_WITNESSES: &[&str] = &[
     "* | limit -9223372036854775808",
     "* | limit -9223372036854775807",
@@ -1275,6 +1372,18 @@ pub fn check(ctx: &mut Ctx) {
     for (i, q) in parse::WITNESSES.iter().chain(COMPILE_WITNESSES.iter()).enumerate() {
         if i % ctx.nshards == ctx.shard {
             handle(ctx, &mut rep, "witness", q, &mut rejected_pool);
+        }
+    }
+    if ctx.shard == 0 {
+        for (q, want_accept) in GLUED_WITNESSES {
+            let r = imp::run(q, b"", "json", 10);
+            let info = serde_json::json!({"query": q, "query_hex": enc::hex(q), "expected_accepted": want_accept, "accepted": r.compiled});
+            if r.compiled != *want_accept || r.panicked.is_some() || r.hung {
+                rep.fail(ctx, "glued-witness", q, "C04/keyword-without-word-boundary", "a keyword glued to the next token is accepted, or a name starting with a keyword is refused", info);
+            } else {
+                ctx.case("glued-witness", q, "pass", info);
+            }
+            handle(ctx, &mut rep, "glued-witness", q, &mut rejected_pool);
         }
     }
     // (d) static errors: table + generated variants
